@@ -82,6 +82,7 @@ if os.path.exists(hh):
     for (i, res, scope) in ch['left']:
         why = open(f'{V}/notes/left_{i}.txt').read().strip() if os.path.exists(f'{V}/notes/left_{i}.txt') else (scope or 'no rule written in the time box')
         hl.append(f"* **{i}** ({'outside the property' if scope else res}): {why}")
+    t = t.replace('@HRULES@', open(f'{V}/notes/round_h_rules.md').read().strip())
     t = t.replace('@HLEFT@', "\n".join(hl) if hl else '(none)')
     s = s.replace('### 16.7 Numbers', t + '### 16.7 Numbers')
 vv = f'{V}/notes/round_v_prose.md'
